@@ -86,6 +86,8 @@ func main() {
 		os.Exit(cmdReplay(os.Args[2:]))
 	case "probe":
 		os.Exit(cmdProbe(os.Args[2:]))
+	case "case":
+		os.Exit(cmdCase(os.Args[2:]))
 	case "list":
 		ids := []string{}
 		for id := range props.All {
@@ -179,7 +181,14 @@ func cmdWorker(args []string) int {
 				last, lastChange, lastCPU = b, time.Now(), cpuTime()
 			}
 			runtime.ReadMemStats(&ms)
-			hung := cpuTime()-lastCPU > hangAfter
+			limit := hangAfter
+			if !p.HangIsViolation {
+				// for properties that do not themselves state termination a long
+				// case is only trouble, and some of their cases legitimately spend
+				// a while inside golang.org/x/image/vector
+				limit = 10 * hangAfter
+			}
+			hung := cpuTime()-lastCPU > limit
 			oom := ms.HeapAlloc > heapLimit
 			if !hung && !oom && time.Since(lastChange) > stallAfter {
 				mu.Lock()
@@ -603,6 +612,65 @@ func shrinkInChildren(p *props.Property, v *report.Violation, repo string) (*rep
 	}
 	fv.Trace = withAsFound(fv.Trace, v)
 	return fv, ""
+}
+
+// cmdCase runs one case of a batch by its index (the same tape the batch
+// would give it) and prints what happened: `ivgsim case -prop C17 -tier
+// thorough -seed 1 -i 13291263`. With -tape it also prints the tape.
+func cmdCase(args []string) int {
+	fs := flag.NewFlagSet("case", flag.ExitOnError)
+	propID := fs.String("prop", "", "")
+	tier := fs.String("tier", "quick", "")
+	seed := fs.Uint64("seed", 1, "")
+	idx := fs.Int("i", 0, "")
+	repo := fs.String("repo", "/repo", "")
+	showTape := fs.Bool("tape", false, "")
+	fs.Parse(args)
+	world.RepoDir = *repo
+	p := props.All[*propID]
+	if p == nil {
+		return 2
+	}
+	realStdout := os.Stdout
+	devNullStdout()
+	var corpus []world.File
+	if p.NeedsCorpus {
+		var err error
+		if corpus, err = world.LoadCorpus(); err != nil {
+			return 2
+		}
+	}
+	var beacon uint64
+	ctx := props.NewCtx(*tier, report.NewStats(20), corpus, &beacon)
+	var prefix []uint64
+	if p.Prefix != nil {
+		prefix = p.Prefix(ctx, *idx)
+	}
+	t := tape.New(caseSeed(*seed, p.ID, *tier, *idx), prefix...)
+	start := time.Now()
+	done := make(chan *report.Violation, 1)
+	go func() { done <- p.Run(ctx, t) }()
+	select {
+	case v := <-done:
+		fmt.Fprintf(realStdout, "case %d finished in %v, %d tape values\n", *idx, time.Since(start), len(t.Values()))
+		if *showTape {
+			fmt.Fprintln(realStdout, t.Values())
+		}
+		if v != nil {
+			fmt.Fprintf(realStdout, "invariant %s: %s\n", v.Invariant, v.Message)
+			for _, l := range v.Trace {
+				fmt.Fprintln(realStdout, "    "+l)
+			}
+			return 1
+		}
+		return 0
+	case <-time.After(40 * time.Second):
+		fmt.Fprintf(realStdout, "case %d still running after 40s; tape so far: %v\n", *idx, t.Values())
+		buf := make([]byte, 1<<16)
+		n := runtime.Stack(buf, true)
+		fmt.Fprintf(realStdout, "%s\n", buf[:n])
+		return 3
+	}
 }
 
 // cmdProbe runs the tape given on stdin once and prints the violation (JSON)
